@@ -296,8 +296,9 @@ def extract(repo):
             depth += {'{': 1, '}': -1}.get(body[j], 0)
             j += 1
         arm = body[m.end():j - 1]
-        calls = re.findall(r'(?:self\.inner\.|self\.|\b)(\w+)\s*\((?:&self\.inner)?\)\s*\.await(\??)', arm)
-        arms.append((m.group(1), ' '.join(n + q for n, q in calls)))
+        # (a call whose result is negated in a condition keeps its `!`)
+        calls = re.findall(r'(!?)(?:self\.inner\.|self\.|\b)(\w+)\s*\((?:&self\.inner)?\)\s*\.await(\??)', arm)
+        arms.append((m.group(1), ' '.join(neg + n + q for neg, n, q in calls)))
         pos = j
         m2 = re.compile(r'\s*,').match(body, pos)
         if m2:
